@@ -26,6 +26,7 @@ class C13(Engine):
     prop = "C13"
     title = "assembly is a deterministic function of the source alone"
     quick_budget = 45
+    quick_runs = 9000
     thorough_budget = 900
     rule = ("run i = valid program P (corpus instructions of 45 CPUs or data directives for the other 23, with macros/.if/.repeat/"
             ".include/.binfile) + reference execution R0 + 4-10 perturbed executions of the same P, each changing a seeded subset of: "
